@@ -66,6 +66,12 @@ def frame_checks(ctx, obj, key, strain, case):
             raise PropertyViolation("C03/strain-rotated/complex", "strain_rotated complex", case)
         sr = sr.real
     e = np.asarray(strain, dtype=float)
+    single = e.ndim == 1
+    if single:
+        e = e[None, :]
+        if sr.shape != (3,):
+            raise PropertyViolation("C03/strain-rotated/value", "strain_rotated of a single triple has shape %r" % (sr.shape,), case)
+        sr = sr[None, :]
     want_sr = np.einsum("ai,va,ai->vi", T, e, T)            # diag(T^T diag(e) T)
     scale = np.max(np.abs(e))
     if sr.shape != e.shape or np.max(np.abs(sr - want_sr)) > 1e-12 * scale:
@@ -99,10 +105,12 @@ def solve_with_reference(ctx, U, key, Ckeys, strain, case):
     # callers keep work buffers: the same array object is refilled in place for the next triple (the solver must not
     # remember anything about an array by its identity)
     arr = np.asarray(strain, dtype=float)
+    if case.get("single_triple") and arr.ndim == 2:
+        arr = arr[0]                       # the constructor is annotated Tuple[float, float, float]: one triple of shape (3,)
     buf = _BUFFERS.setdefault(arr.shape, np.empty(arr.shape))
     buf[...] = arr
     obj = ctx.observe(Shear, buf, ckey, _bucket="C03/ctor", _case=case)
-    T, D = ctx.observe(frame_checks, ctx, obj, key, strain, case, _bucket="C03/frame-crash", _case=case)
+    T, D = ctx.observe(frame_checks, ctx, obj, key, arr if arr.ndim == 1 else strain, case, _bucket="C03/frame-crash", _case=case)
     C = tensor_from_keys(Ckeys)
     Crot = keys_from_tensor(rotate(C, T))
     req = ctx.observe(obj.get_modulus_keys, _bucket="C03/keys-crash", _case=case)
@@ -158,14 +166,29 @@ def random_cases(draw):
         b = draw(st.one_of(st.just(a), st.floats(0.01, 10.0)))
         c = draw(st.one_of(st.just(a), st.just(b), st.floats(0.01, 10.0)))
         rows.append([a, b, c])
-    return {"key": _vk(key), "coefs": coefs, "strain": rows}
+    return {"key": _vk(key), "coefs": coefs, "strain": rows, "single_triple": draw(st.booleans()), "debug_log": draw(st.booleans())}
 
 
 def random_oracle(ctx, case):
+    import logging
     import cij.util as U
     key = (int(case["key"][0]), int(case["key"][1]))
     Ck = {k: float(c) for k, c in zip(KEYS21, case["coefs"])}
-    res, want, _, _, _ = solve_with_reference(ctx, U, key, Ck, case["strain"], case)
+    lg = logging.getLogger("cij")
+    old_level, old_handlers, old_prop = lg.level, list(lg.handlers), lg.propagate
+    if case.get("debug_log"):
+        # `cij run --debug DEBUG`: verbosity is a user option and must not change any number
+        lg.setLevel(logging.DEBUG)
+        lg.handlers = [logging.NullHandler()]
+        lg.propagate = False
+        for name in ("cij.core.phonon_contribution.shear", "cij.core.tasks"):
+            logging.getLogger(name).setLevel(logging.NOTSET)
+    try:
+        res, want, _, _, _ = solve_with_reference(ctx, U, key, Ck, case["strain"], case)
+    finally:
+        lg.setLevel(old_level)
+        lg.handlers = old_handlers
+        lg.propagate = old_prop
     scale = max(1.0, max(abs(c) for c in case["coefs"]))
     if abs(res - want) > 1e-11 * scale:
         raise PropertyViolation("C03/value/key=%s" % case["key"], "random tensor: solver %r, tensor %r" % (res, want), case)
@@ -175,7 +198,8 @@ def sub_random(ctx):
     def body(case):
         random_oracle(ctx, case)
         ctx.case({"key": case["key"], "coefs": case["coefs"][:3] + ["..."], "strain": case["strain"]}, True,
-                 classes=["random", "key-" + case["key"]], key=case)
+                 classes=["random", "key-" + case["key"], "single-triple" if case.get("single_triple") else "strain-table",
+                          "debug-logging" if case.get("debug_log") else "default-logging"], key=case)
 
     ctx.run_given(body, random_cases(), max_examples=ctx.n(400, 40000))
 
